@@ -226,16 +226,18 @@ func checkValues(h *hist, l *ipfslog.IPFSLog, what string) {
 			}
 		}
 	}
-	vx.Assert(pp("C03"), ok, "every entry comes after all of its predecessors that are in the log ("+what+")")
+	// causal placement and sortedness are only required of orderings that respect causality (hash tie-break,
+	// last-write-wins): first-write-wins orders an entry BEFORE its predecessors, the two clauses contradict
+	// each other for it whatever the implementation does
+	if h.cfg.sort != sortFWW {
+		vx.Assert(pp("C03"), ok, "every entry comes after all of its predecessors that are in the log ("+what+")")
+	}
 	sv := l.ToSnapshot().Values
 	vx.Assert(pp("C03"), sameSeq(sv, v), "ToSnapshot().Values equals Values() ("+what+")")
 	if !h.strictTotal() {
 		return
 	}
 	cmp := h.sortFn()
-	// "sorted by the configured ordering" can only be required of orderings that respect causality (hash
-	// tie-break, last-write-wins): first-write-wins orders an entry BEFORE its predecessors, so no causal
-	// linearisation is sorted by it; for it completeness, causality and arrival-independence are checked.
 	if h.cfg.sort != sortFWW {
 		for i := 0; i+1 < len(v); i++ {
 			r, err := cmp(v[i], v[i+1])
